@@ -59,7 +59,11 @@ def bundleBuild (m : Model) (b : Bundle Vals) : Except BErr (Bundle Vals) :=
         let b2 := b1.setI "BundleTotalAmount" amount
         let b3 := b2.setI "MICRValidTotalAmount" micr
         let b4 := b3.setI "BundleImagesCount" images
-        let bc := b4.setI "CreditTotalIndicator" 0
+        let b5 := b4.setI "CreditTotalIndicator" 0
+        -- the caller-settable members of the old control record are kept
+        let bc := match b.control with
+          | some old => (b5.setS "ID" (old.s "ID")).setS "UserField" (old.s "UserField")
+          | none => b5
         .ok { b with control := some bc }
 
 /-- record numbers 1..limit, wrapping back to 1 -/
@@ -136,7 +140,12 @@ def cashLetterBuild (m : Model) (cl : CashLetter Vals) : Except BErr (CashLetter
             | some c => if (c.s "ECEInstitutionName").isEmpty then h.s "ECEInstitutionRoutingNumber" else c.s "ECEInstitutionName"
             | none => h.s "ECEInstitutionRoutingNumber"
           let c5 := c4.setS "ECEInstitutionName" name
-          let clc := c5.setI "CreditTotalIndicator" credit
+          let c6 := c5.setI "CreditTotalIndicator" credit
+          let clc := match cl.control with
+            | some old =>
+              let c7 := c6.setS "ID" (old.s "ID")
+              if (old.d "SettlementDate").isZero then c7 else c7.setD "SettlementDate" (old.d "SettlementDate")
+            | none => c6
           .ok { cl with bundles := bs, control := some clc }
 
 /-- `CashLetter.Create()` = build, then Validate -/
@@ -205,7 +214,7 @@ def fileCreate (m : Model) (f : File Vals) : Except BErr (File Vals) :=
         let fc4 := fc3.setI "FileTotalAmount" (sumInt (items.map (fun i => i.detail.i "ItemAmount")))
         let fc5 := fc4.setS "ImmediateOriginContactName" (f.control.s "ImmediateOriginContactName")
         let fc6 := fc5.setS "ImmediateOriginContactPhoneNumber" (f.control.s "ImmediateOriginContactPhoneNumber")
-        let fc := fc6.setI "CreditTotalIndicator" credit
+        let fc := (fc6.setI "CreditTotalIndicator" credit).setS "ID" (f.control.s "ID")
         .ok { f with cashLetters := cls, control := fc }
 
 /-- what "a file and its cash letters have been built" means: every `CashLetter.Create()`, then `File.Create()` -/
